@@ -54,6 +54,7 @@ inductive RuleItem
   | call (fn : String) (argc : Nat)               -- `fn(SELF.…, …)`, SELF occurs only inside the arguments
   | selfAttr (attr : String)                      -- `SELF.attr`
   | bareAttr (attr : String)                      -- `attr` (no SELF): found through `VARfind` = own and inherited attributes
+  | badGroup (attr : String)                      -- `SELF.x\ent.attr` with `x` of a non-entity type: group reference of an unusual expression
   | smallReal (shown : String)                    -- a REAL literal with |x| ≤ FLT_MIN; `shown` = its `%f` rendering
   deriving Repr, DecidableEq
 
@@ -614,41 +615,61 @@ def typeRuleDiags (path : String) (s : Schema) : List Diag :=
     | .call fn argc => callDiags path s r fn argc
     | _ => []
 
+/-- OVERLOADED_ATTR candidates of one entity: for every new (not redeclared) attribute and every supertype, the result of
+    `ENTITYget_named_attribute( supertype, name )` and the diagnostic to print when it finds one -/
+def overloadCands (path : String) (s : Schema) (fuel : Nat) (e : Entity) : List (Option Bool × Diag) :=
+  e.attrs.flatMap fun a =>
+    match a.redeclOf with
+    | some _ => []
+    | none => (supersOf s e).map fun sup =>
+        (namedAttr s a.name fuel sup, mk path LibErrors.OVERLOADED_ATTR a.line [sArg a.name, sArg sup])
+
+def overloadDiags (path : String) (s : Schema) (fuel : Nat) (e : Entity) : List Diag :=
+  (overloadCands path s fuel e).filterMap fun (r, d) => if r = some true then some d else none
+
+/-- attribute redeclarations `SELF\sup.attr` -/
+def redeclDiags (path : String) (s : Schema) (fuel : Nat) (e : Entity) : List Diag :=
+  e.attrs.flatMap fun a =>
+    match a.redeclOf with
+    | none => []
+    | some sup =>
+      if sup = e.name || !isAncestor s sup fuel e.name then
+        [mk path LibErrors.REDECL_NO_SUCH_SUPERTYPE a.line [sArg sup, sArg a.name]]
+      else match findEntity s sup with
+        | some se => if se.attrs.any (·.name = a.name) then []
+                     else [mk path LibErrors.REDECL_NO_SUCH_ATTR a.line [sArg a.name, sArg sup]]
+        | none => []
+
+/-- one item of a domain rule of entity `e` -/
+def ruleItemDiags (path : String) (s : Schema) (fuel : Nat) (e : Entity) (r : Rule) : RuleItem → List Diag
+  | .call fn argc => callDiags path s r fn argc
+  | .selfAttr an =>
+    (match namedAttr s an fuel e.name with
+     | some true => []
+     | _ => [mk path LibErrors.UNKNOWN_ATTR_IN_ENTITY r.line [sArg an, sArg e.name]])
+  | .bareAttr an =>
+    -- `VARfind`: own and inherited attributes only; otherwise the name is looked up (and not found) in the enclosing
+    -- scopes, and the rule, having no other reference to SELF or an attribute, is reported as well
+    (match namedAttr s an fuel e.name with
+     | some true => []
+     | _ => [mk path LibErrors.UNDEFINED r.line [sArg an], mk path LibErrors.MISSING_SELF r.line [sArg r.label]])
+  | .badGroup an =>
+    -- `EXPresolve_op_group` on an operand that is no entity (the operand `SELF.x` has no name of its own), then the `.attr`
+    [mk path LibErrors.GROUP_REF_UNEXPECTED_TYPE r.line [.str "<expression>".toList],
+     mk path LibErrors.ATTRIBUTE_REF_FROM_NON_ENTITY r.line [sArg an]]
+  | .smallReal _ => []
+
+def ruleDiags (path : String) (s : Schema) (fuel : Nat) (e : Entity) : List Diag :=
+  e.rules.flatMap fun r => r.items.flatMap (ruleItemDiags path s fuel e r)
+
+/-- `ENTITYresolve_expressions` for one entity -/
+def entityPass5 (path : String) (s : Schema) (fuel : Nat) (e : Entity) : List Diag :=
+  overloadDiags path s fuel e ++ redeclDiags path s fuel e ++ ruleDiags path s fuel e
+
 def pass5 (path : String) (s : Schema) : Pass :=
   let fuel := s.decls.length + 1
-  let per := s.entities.map fun e =>
-    let overl := e.attrs.flatMap fun a =>
-      match a.redeclOf with
-      | some _ => []
-      | none => (supersOf s e).map fun sup => (namedAttr s a.name fuel sup, mk path LibErrors.OVERLOADED_ATTR a.line [sArg a.name, sArg sup])
-    -- attribute redeclaration `SELF\sup.attr`
-    let redecl := e.attrs.flatMap fun a =>
-      match a.redeclOf with
-      | none => []
-      | some sup =>
-        if sup = e.name || !isAncestor s sup fuel e.name then
-          [mk path LibErrors.REDECL_NO_SUCH_SUPERTYPE a.line [sArg sup, sArg a.name]]
-        else match findEntity s sup with
-          | some se => if se.attrs.any (·.name = a.name) then []
-                       else [mk path LibErrors.REDECL_NO_SUCH_ATTR a.line [sArg a.name, sArg sup]]
-          | none => []
-    let rules := e.rules.flatMap fun r => r.items.flatMap fun
-      | .call fn argc => callDiags path s r fn argc
-      | .selfAttr an =>
-        (match namedAttr s an fuel e.name with
-         | some true => []
-         | _ => [mk path LibErrors.UNKNOWN_ATTR_IN_ENTITY r.line [sArg an, sArg e.name]])
-      | .bareAttr an =>
-        -- `VARfind`: own and inherited attributes only; otherwise the name is looked up (and not found) in the enclosing
-        -- scopes, and the rule, having no other reference to SELF or an attribute, is reported as well
-        (match namedAttr s an fuel e.name with
-         | some true => []
-         | _ => [mk path LibErrors.UNDEFINED r.line [sArg an], mk path LibErrors.MISSING_SELF r.line [sArg r.label]])
-      | .smallReal _ => []
-    (overl, redecl ++ rules)
-  { diags := typeRuleDiags path s ++
-             per.flatMap fun (overl, rules) => (overl.filterMap fun (r, d) => if r = some true then some d else none) ++ rules,
-    diverges := per.any fun (overl, _) => overl.any fun (r, _) => r = none }
+  { diags := typeRuleDiags path s ++ s.entities.flatMap (entityPass5 path s fuel),
+    diverges := s.entities.any fun e => (overloadCands path s fuel e).any fun (r, _) => r = none }
 
 /-- pass 2 dereferences the NULL entry that a failed `USE FROM <undefined>;` leaves in `use_schemas` when some schema
     imports an item from the schema holding that clause and the look-up gets as far as the fully USE'd schemas — unless
